@@ -302,6 +302,65 @@ Section ProfileReal.
   Qed.
 End ProfileReal.
 
+(* rounding error below 2^15 is at most 2^-10 *)
+Lemma ulp_below_2p15 x : Rabs x < bpow2 15 -> ulp radix2 fexp32 x <= bpow2 (-9).
+Proof.
+  intros H. destruct (Req_dec x 0) as [->|Hx].
+  - rewrite ulp_FLT_0 by auto with typeclass_instances. apply bpow_le. lia.
+  - rewrite ulp_neq_0 by exact Hx. apply bpow_le. unfold cexp, FLT_exp.
+    assert (mag radix2 x <= 15)%Z by (apply mag_le_bpow; assumption). lia.
+Qed.
+Lemma rnd_err_below_2p15 x : Rabs x < bpow2 15 -> Rabs (rnd x - x) <= bpow2 (-10).
+Proof.
+  intros H. apply Rle_trans with (/2 * ulp radix2 fexp32 x).
+  - apply error_le_half_ulp; auto with typeclass_instances.
+  - generalize (ulp_below_2p15 x H). replace (bpow2 (-9)) with (2 * bpow2 (-10)) by (change (-9)%Z with (1 + -10)%Z; rewrite bpow_plus; reflexivity). intros. lra.
+Qed.
+
+Lemma pred_m32768 : pred radix2 fexp32 (-32768) = - (32768 + bpow2 (-8)).
+Proof.
+  change (IZR (-32768)) with (- IZR 32768). rewrite pred_opp. f_equal. rewrite succ_eq_pos by lra.
+  rewrite ulp_neq_0 by lra. unfold cexp.
+  rewrite (mag_unique radix2 32768 16).
+  - unfold FLT_exp. change (Z.max (16 - 24) (-149)) with (-8)%Z. reflexivity.
+  - rewrite Rabs_pos_eq by lra. change (bpow2 (16 - 1)) with 32768. change (bpow2 16) with 65536. lra.
+Qed.
+
+(* a value at most 2^-10 below -32768 rounds to at least -32768 *)
+Lemma rnd_ge_m32768 g : -32768 - bpow2 (-10) <= g -> -32768 <= rnd g.
+Proof.
+  intros H. apply round_N_ge_midp; auto with typeclass_instances.
+  - apply (fmt_Z (-32768)). vm_compute. discriminate.
+  - rewrite pred_m32768. assert (bpow2 (-10) < bpow2 (-9)) by (apply bpow_lt; lia).
+    replace (bpow2 (-8)) with (2 * bpow2 (-9)) by (change (-8)%Z with (1 + -9)%Z; rewrite bpow_plus; reflexivity). lra.
+Qed.
+
+Section Tight.
+  Context (p : linear) (Hp : lin_ok p).
+  Theorem lu_real_ge_m32768 (e : f32) : is_finite e = true -> -32768 <= lu_real p e.
+  Proof.
+    intros Fe. generalize (LO_bounds p Hp) (HI_bounds p Hp). intros HLO HHI.
+    destruct (Bsign e) eqn:Se.
+    2:{ generalize (lu_real_nonneg p Hp e Fe Se). lra. }
+    generalize Hp. intros [Fk Hk Fo Ho1 Ho2].
+    unfold lu_real, sgn. rewrite Se.
+    set (c := Rmax (LO p) (Rmin (satR (rnd (R32 e * R32 (kp p)))) (HI p))).
+    assert (Hc : LO p <= c) by (unfold c; apply Rmax_l).
+    apply rnd_ge_m32768.
+    destruct (Req_dec (R32 (l_offset p)) 0) as [Z0|Z0].
+    - (* offset 0: LO = -32768 exactly *)
+      assert (HL : LO p = -32768).
+      { unfold LO. rewrite Z0, Rplus_0_r. apply (rnd_Z (-32768)). vm_compute. discriminate. }
+      assert (0 < bpow2 (-10)) by apply bpow_gt_0. rewrite Z0. lra.
+    - assert (HL : Rabs (LO p - (-32768 + R32 (l_offset p))) <= bpow2 (-10)).
+      { unfold LO. apply rnd_err_below_2p15. change (bpow2 15) with 32768. apply Rabs_lt. lra. }
+      apply Rabs_le_inv in HL. lra.
+  Qed.
+End Tight.
+
 Lemma lu_sign_range p : lin_ok p -> forall e : f32, is_finite e = true ->
-  (Bsign e = false -> 0 <= lu_real p e <= 32768) /\ (Bsign e = true -> -32769 <= lu_real p e <= 0).
-Proof. intros Hp e Fe. split; [apply lu_real_nonneg | apply lu_real_nonpos]; assumption. Qed.
+  (Bsign e = false -> 0 <= lu_real p e <= 32768) /\ (Bsign e = true -> -32768 <= lu_real p e <= 0).
+Proof.
+  intros Hp e Fe. split; [apply lu_real_nonneg; assumption|]. intros Se.
+  generalize (lu_real_nonpos p Hp e Fe Se) (lu_real_ge_m32768 p Hp e Fe). lra.
+Qed.
